@@ -6,6 +6,13 @@
  *   #pragma omp parallel / single  ->  removed              one initial thread, every task its own thread: an
  *                                       over-approximation of every schedule for every thread count (incl. tasks run
  *                                       by the waiting thread at scheduling points, and the no-OpenMP build)
+ *   #pragma omp parallel [if(c)] { B } with B not a single construct
+ *                                   ->  team region: B runs in the encountering thread AND, when c holds and the
+ *                                       (nondeterministic) team has a second member, as a textual copy in a second CBMC
+ *                                       thread with its own task frame; implicit barrier at the end.  NOTE: CBMC threads
+ *                                       get COPIES of the spawning function's locals - flags that synchronise threads
+ *                                       must be globals (vk_team_done[]).
+ *   any other #pragma omp          ->  failing "model limit" assertion (never ignored silently)
  * CBMC explores all interleavings (sequential consistency). */
 #ifndef VK_OMP_H
 #define VK_OMP_H
